@@ -21,13 +21,13 @@ def run(path):
             from kx.groups import GROUPS
             from vx.rustcut import Source
             g = GROUPS[rt['group']]
-            ws = kani.make_ws(scratch)
+            ws, _tdir = kani.make_ws(scratch)
             kani.install_group(ws, rt['group'])
             target = os.path.join(ws, g['file'])
             s = Source(target)
             it = s.cut_item('mod', f'verif_kani_{rt["group"]}')
             open(target, 'w').write(s.text[:it['close']] + '\n' + rt['test'] + '\n' + s.text[it['close']:])
-            env = dict(os.environ, CARGO_NET_OFFLINE='true', CARGO_TARGET_DIR=os.path.join(scratch, 'pb-target'))
+            env = dict(os.environ, CARGO_NET_OFFLINE='true', CARGO_TARGET_DIR=os.path.join(_tdir, 'kani-target-' + g['crate'] + '-pb'))
             p = subprocess.run(['cargo', 'kani', 'playback', '-Z', 'concrete-playback', '-p', g['crate'], '--', rt['test_name']],
                                cwd=ws, env=env, capture_output=True, text=True)
             out = p.stdout + p.stderr
@@ -36,6 +36,22 @@ def run(path):
                 print(f'REPLAY reproduced: {rep["obligation"]} fails on the real code with input {rep.get("counterexample")}')
                 return 1
             print('REPLAY not reproduced (test passed or did not build)')
+            return 0
+        re_ = rep.get('replay_enum')
+        if re_:
+            from kx import enumrun
+            rs = enumrun.run_groups(rep['property'], [re_['group']], 'thorough', scratch, only=[re_['test']])
+            fs = [f for r in rs for f in r['failures']]
+            und = [u for r in rs for u in r['undecided'] if 'canary' not in u]
+            for f in fs:
+                print('\n'.join('FAILING INPUT ' + x for x in f.get('counterexample', [])))
+            if fs:
+                print(f'REPLAY reproduced: {rep["obligation"]} fails on the real code')
+                return 1
+            if und:
+                print('REPLAY undecided:', und)
+                return 2
+            print('REPLAY not reproduced: the enumeration passes on the current tree')
             return 0
         # Verus: re-verify the unit
         from vx.driver import run_verus_unit
